@@ -32,7 +32,7 @@ RULE = (
 ASSUMPTIONS = ["lag() excluded (defined across rows); follow-up rows are training rows so that raise-mode splines stay in range"]
 
 NUM = ["x", "y", "p", "body mass", "body+mass"]
-CAT = ["A", "B", "S"]
+CAT = ["A", "B", "S", "K"]  # K: an object column of keys that compare equal across types (1, 1.0, True) or are missing
 
 
 def tnum(rng, v):
@@ -65,6 +65,8 @@ def tnum(rng, v):
 
 
 def tcat(rng, v, levels):
+    if v == "K":
+        return rng.choice([(f"hashed(K, levels={k})", "hashed_mixed") for k in (5, 97, 1000)])
     opts = [
         (v, "bare"), (f"C({v})", "C"), (f"C({v}, contr.sum)", "Csum"), (f"C({v}, contr.helmert)", "Chelmert"), (f"C({v}, contr.diff)", "Cdiff"),
         (f"C({v}, contr.poly)", "Cpoly"), (f"C({v}, contr.SAS)", "CSAS"), (f"hashed({v}, levels=5)", "hashed"),
@@ -93,12 +95,13 @@ def gen_case(rng: random.Random, tier: str) -> dict:
         ["A", {"kind": "cat", "categories": lvA, "values": catvals(lvA)}],
         ["B", {"kind": "cat", "categories": rng.sample(lvB, 2), "values": catvals(lvB)}],
         ["S", {"kind": "text", "dtype": rng.choice(["object", "str"]), "values": catvals(lvS)}],
+        ["K", {"kind": "mixed", "values": [rng.choice([1, 1.0, True, "1", 7, 7.0, "k", None, 0, False, 0.0]) for _ in range(n)]}],
     ], "index": None}
     # a plain column whose name is what the quoted names sanitize to: present at fit time, in follow-ups, both or neither
     plain = rng.choice(["never", "never", "fit", "follow", "both"])
     if plain in ("fit", "both"):
         frame["cols"].append(["body_mass", {"kind": "num", "dtype": "float64", "values": [round(rng.gauss(1, 1), 3) for _ in range(n)]}])
-    levels = {"A": lvA, "B": lvB, "S": lvS}
+    levels = {"A": lvA, "B": lvB, "S": lvS, "K": []}
     enc, kinds = {}, {}
     for v in NUM:
         enc[v], kinds[v] = tnum(rng, v)
